@@ -328,15 +328,3 @@ func VerifC13Possibilities() {
 	}
 }
 
-// VerifC09Debug: one fixed shape (kept as a regression probe for an engine
-// slip seen with 3-byte width gadgets in a Less condition).
-func VerifC09Debug() {
-	c1 := expr.NewConst(sym.Bytes("c1", 1), 1)
-	c2 := expr.NewConst(sym.Bytes("c2", 1), 1)
-	g := exprtools.NewWidthGadget(exprtools.NewWidthGadget(c1, 1), 8)
-	e := expr.NewLess(c2, g, expr.NewRegLoad("r1", 3), expr.NewRegLoad("r2", 3), 3)
-	var r expr.Expr
-	sym.NoPanic(func() { r = ConstFold(e) })
-	env := irsem.NewMapEnv(128)
-	sym.Assert(irsem.Eval(r, env).Eq(irsem.Eval(e, env)), "ConstFold keeps the value under every valuation")
-}
